@@ -66,12 +66,25 @@ theorem lt_of_get? {α : Type} (l : List α) (i : Nat) (x : α) (h : l[i]? = som
   have := List.getElem?_eq_some_iff.mp h
   exact this.1
 
+/-- `s'` extends `s`: every bucket keeps its live items, in place (new items are only appended) -/
+def Ext (s s' : Sched) : Prop :=
+  ∀ (j : Nat) (b : Bucket), s.bucket[j]? = some b → ∃ b', s'.bucket[j]? = some b' ∧ live b <+: live b'
+
+theorem Ext.refl (s : Sched) : Ext s s := fun j b h => ⟨b, h, List.prefix_refl _⟩
+
+theorem Ext.trans {s1 s2 s3 : Sched} (h12 : Ext s1 s2) (h23 : Ext s2 s3) : Ext s1 s3 := by
+  intro j b hb
+  obtain ⟨b2, h2, p2⟩ := h12 j b hb
+  obtain ⟨b3, h3, p3⟩ := h23 j b2 h2
+  exact ⟨b3, h3, p2.trans p3⟩
+
 /-- storing one more item `v` in slot `num_items` of the bucket `off` frames ahead -/
 theorem push_spec (env : Env) (s : Sched) (off : Nat) (b : Bucket) (v : Item) (hinv : Inv env s)
     (hb : s.bucket[(s.cur + off) % 25]? = some b) (hn : b.numItems < 8) (hv : itemOk env v) :
     Inv env { s with bucket := s.bucket.set ((s.cur + off) % 25) ⟨b.item.set b.numItems v, b.numItems + 1⟩ } ∧
     abs { s with bucket := s.bucket.set ((s.cur + off) % 25) ⟨b.item.set b.numItems v, b.numItems + 1⟩ } =
-      Spec.TdmaSched.put (abs s) (off % 25) (absItem v) := by
+      Spec.TdmaSched.put (abs s) (off % 25) (absItem v) ∧
+    Ext s { s with bucket := s.bucket.set ((s.cur + off) % 25) ⟨b.item.set b.numItems v, b.numItems + 1⟩ } := by
   obtain ⟨⟨hl, hc, hbw⟩, hal⟩ := hinv
   have hi : (s.cur + off) % 25 < s.bucket.length := lt_of_get? _ _ _ hb
   have hbm : b ∈ s.bucket := List.mem_of_getElem? hb
@@ -79,7 +92,17 @@ theorem push_spec (env : Env) (s : Sched) (off : Nat) (b : Bucket) (v : Item) (h
   have hlive : live ⟨b.item.set b.numItems v, b.numItems + 1⟩ = live b ++ [v] := by
     simp only [live]
     exact take_set_succ _ _ _ (by rw [hbwf.1]; exact hn)
-  refine ⟨⟨⟨by simpa using hl, hc, ?_⟩, ?_⟩, ?_⟩
+  refine ⟨⟨⟨by simpa using hl, hc, ?_⟩, ?_⟩, ?_, ?_⟩
+  rotate_right
+  · intro j bj hbj
+    by_cases hj : (s.cur + off) % 25 = j
+    · subst hj
+      rw [hb] at hbj
+      simp only [Option.some.injEq] at hbj
+      subst hbj
+      refine ⟨_, List.getElem?_set_self hi, ?_⟩
+      rw [hlive]; exact List.prefix_append _ _
+    · exact ⟨bj, by simp only [List.getElem?_set_ne hj]; exact hbj, List.prefix_refl _⟩
   · intro b' hb'
     rcases List.mem_or_eq_of_mem_set hb' with h | h
     · exact hbw b' h
@@ -136,7 +159,7 @@ theorem schedule_spec (env : Env) (s : Sched) (off : Nat) (cb : Cb) (p1 p2 p3 : 
     (hp : -32768 ≤ prio ∧ prio ≤ 32767) (hok : itemOk env ⟨cb, p1, p2, p3, prio, 0⟩) :
     ∃ s' rc, schedule s off cb p1 p2 p3 prio = .ok (s', rc) ∧ Inv env s' ∧ s'.cur = s.cur ∧
       (abs s', rc) = Spec.TdmaSched.schedule (abs s) off ⟨cb, p1, p2, p3, prio⟩ ∧
-      (rc = -1 → s' = s) := by
+      (rc = -1 → s' = s) ∧ Ext s s' := by
   have hw := hinv.1
   obtain ⟨hl, hc, hbw⟩ := hw
   obtain ⟨b, hb, hbm, hbwf⟩ := bucket_get s hinv.1 ((s.cur + off) % 25) (Nat.mod_lt _ (by decide))
@@ -150,7 +173,7 @@ theorem schedule_spec (env : Env) (s : Sched) (off : Nat) (cb : Cb) (p1 p2 p3 : 
   simp only [bind, Except.bind, idx_of_get? _ _ _ hb, nc]
   by_cases hfull : b.numItems ≥ 8
   · simp only [hfull, if_true]
-    refine ⟨s, -1, rfl, hinv, rfl, ?_, fun _ => rfl⟩
+    refine ⟨s, -1, rfl, hinv, rfl, ?_, fun _ => rfl, Ext.refl s⟩
     simp only [Spec.TdmaSched.schedule]
     rw [if_pos ((full_iff s off b hinv.1 hb).mpr hfull)]
   · simp only [hfull, if_false]
@@ -165,8 +188,8 @@ theorem schedule_spec (env : Env) (s : Sched) (off : Nat) (cb : Cb) (p1 p2 p3 : 
     rw [e5]
     have hv : itemOk env { b.item[b.numItems] with cb := cb, p1 := p1, p2 := p2, p3 := p3, prio := prio } :=
       (itemOk_congr env _ _ rfl rfl rfl rfl).mpr hok
-    obtain ⟨hi', ha'⟩ := push_spec env s off b _ hinv hb hn hv
-    refine ⟨_, 0, rfl, hi', rfl, ?_, fun h => by omega⟩
+    obtain ⟨hi', ha', hx'⟩ := push_spec env s off b _ hinv hb hn hv
+    refine ⟨_, 0, rfl, hi', rfl, ?_, fun h => by omega, hx'⟩
     simp only [Spec.TdmaSched.schedule]
     rw [if_neg (fun h => hfull ((full_iff s off b hinv.1 hb).mp h))]
     simp only [Spec.TdmaSched.slot, Spec.TdmaSched.depth]
@@ -221,14 +244,14 @@ theorem setLoop_spec (env : Env) (p3 : Nat) : ∀ (rest : List Item) (s : Sched)
     ∃ s' rc ok, scheduleSetLoop p3 rest s fo ((s.cur + fo) % 25) j = .ok (s', rc) ∧ Inv env s' ∧
       s'.cur = s.cur ∧
       (abs s', ok) = Spec.TdmaSched.putFrames (abs s) fo (framesOf p3 rest) ∧
-      rc = if ok = true then j + (((framesOf p3 rest).length - 1 : Nat) : Int) else -1 := by
+      (rc = if ok = true then j + (((framesOf p3 rest).length - 1 : Nat) : Int) else -1) ∧ Ext s s' := by
   intro rest
   induction rest with
   | nil => intro s fo j _ he; simp [hasEnd] at he
   | cons it rest ih =>
     intro s fo j hinv he hm hok
     by_cases c1 : it.cb = .endSet
-    · refine ⟨s, j, true, ?_, hinv, rfl, ?_, ?_⟩
+    · refine ⟨s, j, true, ?_, hinv, rfl, ?_, ?_, Ext.refl s⟩
       · simp only [scheduleSetLoop, c1, if_true]
       · simp only [framesOf, c1, if_true, Spec.TdmaSched.putFrames, Spec.TdmaSched.putFrame]
       · simp only [framesOf, c1, if_true, List.length_cons, List.length_nil]; simp
@@ -239,8 +262,8 @@ theorem setLoop_spec (env : Env) (p3 : Nat) : ∀ (rest : List Item) (s : Sched)
         simp only [markers, c2, c3, if_false, if_true] at hm
         simp only [setItems, c2, c3, if_false, if_true] at hok
         have e1 : u8 (fo + 1) = fo + 1 := by simp only [u8]; omega
-        obtain ⟨s', rc, ok, h1, h2, h3, h4, h5⟩ := ih s (fo + 1) (j + 1) hinv he (by omega) hok
-        refine ⟨s', rc, ok, ?_, h2, h3, ?_, ?_⟩
+        obtain ⟨s', rc, ok, h1, h2, h3, h4, h5, h6⟩ := ih s (fo + 1) (j + 1) hinv he (by omega) hok
+        refine ⟨s', rc, ok, ?_, h2, h3, ?_, ?_, h6⟩
         · simp only [scheduleSetLoop, c2, c3, if_false, if_true, e1]
           rw [wrapBucket_ok s (fo + 1) hinv.1.2.1 (by omega)]
           simp only [bind, Except.bind]
@@ -263,7 +286,7 @@ theorem setLoop_spec (env : Env) (p3 : Nat) : ∀ (rest : List Item) (s : Sched)
         simp only [scheduleSetLoop, c1, c2, if_false, bind, Except.bind, idx_of_get? _ _ _ hb, nc]
         by_cases hfull : b.numItems ≥ 8
         · simp only [hfull, if_true]
-          refine ⟨s, -1, false, rfl, hinv, rfl, ?_, by simp⟩
+          refine ⟨s, -1, false, rfl, hinv, rfl, ?_, by simp, Ext.refl s⟩
           simp only [framesOf, c1, c2, if_false, hf, Spec.TdmaSched.putFrames, Spec.TdmaSched.putFrame]
           rw [if_pos ((full_iff s fo b hinv.1 hb).mpr hfull)]
         · simp only [hfull, if_false]
@@ -275,11 +298,11 @@ theorem setLoop_spec (env : Env) (p3 : Nat) : ∀ (rest : List Item) (s : Sched)
           have e5 : u8 (b.numItems + 1) = b.numItems + 1 := by simp only [u8]; omega
           rw [e5]
           simp only []
-          obtain ⟨hi', ha'⟩ := push_spec env s fo b { it with p3 := p3 } hinv hb hn
+          obtain ⟨hi', ha', hx'⟩ := push_spec env s fo b { it with p3 := p3 } hinv hb hn
             (hok _ (List.mem_cons_self ..))
-          obtain ⟨s', rc, ok, h1, h2, h3, h4, h5⟩ := ih _ fo j hi' he hm
+          obtain ⟨s', rc, ok, h1, h2, h3, h4, h5, h6⟩ := ih _ fo j hi' he hm
             (fun x hx => hok x (List.mem_cons_of_mem _ hx))
-          refine ⟨s', rc, ok, h1, h2, h3, ?_, ?_⟩
+          refine ⟨s', rc, ok, h1, h2, h3, ?_, ?_, hx'.trans h6⟩
           · rw [h4, ha']
             simp only [framesOf, c1, c2, if_false, hf, Spec.TdmaSched.putFrames, Spec.TdmaSched.putFrame]
             rw [if_neg (fun h => hfull ((full_iff s fo b hinv.1 hb).mp h))]
@@ -292,11 +315,11 @@ theorem scheduleSet_spec (env : Env) (s : Sched) (off : Nat) (set : List Item) (
     (hinv : Inv env s) (he : hasEnd set = true) (hm : off + markers set < 256) (h3 : p3 < 65536)
     (hok : ∀ it ∈ setItems p3 set, itemOk env it) :
     ∃ s' rc, scheduleSet s off set p3 = .ok (s', rc) ∧ Inv env s' ∧ s'.cur = s.cur ∧
-      (abs s', rc) = Spec.TdmaSched.scheduleSet (abs s) off (framesOf p3 set) := by
+      (abs s', rc) = Spec.TdmaSched.scheduleSet (abs s) off (framesOf p3 set) ∧ Ext s s' := by
   have e0 : u8 off = off := by simp only [u8]; omega
   have e3 : u16 p3 = p3 := by simp only [u16]; omega
-  obtain ⟨s', rc, ok, h1, h2, h3', h4, h5⟩ := setLoop_spec env p3 set s off 0 hinv he hm hok
-  refine ⟨s', rc, ?_, h2, h3', ?_⟩
+  obtain ⟨s', rc, ok, h1, h2, h3', h4, h5, h6⟩ := setLoop_spec env p3 set s off 0 hinv he hm hok
+  refine ⟨s', rc, ?_, h2, h3', ?_, h6⟩
   · simp only [scheduleSet, e0, e3]
     rw [wrapBucket_ok s off hinv.1.2.1 (by omega)]
     simp only [bind, Except.bind]
@@ -319,7 +342,8 @@ theorem advance_spec (env : Env) (s : Sched) (hinv : Inv env s) :
   refine ⟨?_, ⟨⟨hl, Nat.mod_lt _ (by decide), hbw⟩, hal⟩, ?_⟩
   · simp only [advance]
     rw [wrapBucket_ok s 1 hc (by decide)]
-    rfl
+    have : u8 ((s.cur + 1) % 25) = (s.cur + 1) % 25 := by simp only [u8]; omega
+    simp only [bind, Except.bind, pure, Except.pure, this]
   · funext d
     simp only [Spec.TdmaSched.advance, Spec.TdmaSched.depth, abs]
     by_cases hd : d < 25
@@ -419,95 +443,6 @@ theorem reset_spec (env : Env) (s : Sched) (hinv : Inv env s) :
       have : d ≠ 0 := by omega
       simp only [this, if_false]
 
-/-! ### execute -/
-
-/-- `tdma_sched_execute` on a well-formed state whose pending callbacks succeed: every live item of the
-current bucket runs exactly once (`Perm`), in ascending priority order, the bucket is cleared, the
-result is the number of items -/
-theorem execute_spec (env : Env) (s : Sched) (hinv : Inv env s) :
-    ∃ b ran, s.bucket[s.cur]? = some b ∧
-      execute env s = .ok ({ s with bucket := s.bucket.set s.cur { b with numItems := 0 } }, (b.numItems : Int), ran) ∧
-      ran.Perm (live b) ∧ ran.Pairwise (fun x y => x.prio ≤ y.prio) := by
-  obtain ⟨⟨hl, hc, hbw⟩, hal⟩ := hinv
-  obtain ⟨b, hb, hbm, hbwf⟩ := bucket_get s ⟨hl, hc, hbw⟩ s.cur hc
-  obtain ⟨seq, hs1, hp, hpt, hsorted⟩ := bucketSort_spec b hbwf
-  have hl8 : seq.length = 8 := by simpa using hp.length_eq
-  have hn := hbwf.2
-  -- the first num_items entries of seq are live slots
-  have hlt : ∀ k, k < b.numItems → seq.getD k 0 < b.numItems := by
-    intro k hk
-    have h1 : seq.getD k 0 ∈ seq.take b.numItems := by
-      rw [getD_eq_getElem' seq k 0 (by omega)]
-      exact List.mem_take_iff_getElem.mpr ⟨k, by omega, rfl⟩
-    have := hpt.mem_iff.mp h1
-    simpa using this
-  have hok : ∀ k, k < b.numItems → itemOk env (itemAt b.item seq k) := by
-    intro k hk
-    apply hal b hbm
-    simp only [itemAt, live]
-    have h2 := hlt k hk
-    rw [getD_eq_getElem' b.item _ zeroItem (by rw [hbwf.1]; omega)]
-    exact List.mem_take_iff_getElem.mpr ⟨seq.getD k 0, by rw [hbwf.1]; omega, rfl⟩
-  have hloop := execLoop_ok env b.item seq hbwf.1 hp b.numItems hn hok b.numItems 0 0 [] (by omega)
-  refine ⟨b, (List.range b.numItems).map (fun k => itemAt b.item seq k), hb, ?_, ?_, ?_⟩
-  · simp only [execute, bind, Except.bind, idx_of_get? _ _ _ hb, hs1, hloop]
-    rw [setIdx_ok _ _ _ (lt_of_get? _ _ _ hb)]
-    simp only [Int.zero_add, List.nil_append, Nat.zero_add]
-    rfl
-  · have e1 : (List.range b.numItems).map (fun k => itemAt b.item seq k) =
-        (seq.take b.numItems).map (fun x => b.item.getD x zeroItem) := by
-      rw [← map_range_getD seq 0 b.numItems (by omega), List.map_map]
-      rfl
-    rw [e1]
-    have := hpt.map (fun x => b.item.getD x zeroItem)
-    rw [map_range_getD b.item zeroItem b.numItems (by rw [hbwf.1]; exact hn)] at this
-    exact this
-  · rw [List.pairwise_map]
-    exact List.Pairwise.imp_of_mem (fun {a c} ha hc' hac => by
-      have hc2 : c < b.numItems := by simpa using hc'
-      exact hsorted a c hac hc2) List.pairwise_lt_range
-
-theorem execute_abs (env : Env) (s : Sched) (hinv : Inv env s) :
-    ∃ s' rc ran, execute env s = .ok (s', rc, ran) ∧ Inv env s' ∧ s'.cur = s.cur ∧
-      abs s' = (Spec.TdmaSched.execute (abs s)).1 ∧
-      rc = ((Spec.TdmaSched.execute (abs s)).2.length : Int) ∧
-      Spec.TdmaSched.ValidRun (Spec.TdmaSched.execute (abs s)).2 (ran.map absItem) := by
-  obtain ⟨b, ran, hb, he, hperm, hpw⟩ := execute_spec env s hinv
-  obtain ⟨⟨hl, hc, hbw⟩, hal⟩ := hinv
-  have hbm : b ∈ s.bucket := List.mem_of_getElem? hb
-  have hbwf := hbw b hbm
-  have h0 : abs s 0 = absBucket b := abs_get s 0 b (by decide) (by
-    have : (s.cur + 0) % 25 = s.cur := by omega
-    rw [this]; exact hb)
-  refine ⟨_, _, ran, he, ⟨⟨by simpa using hl, hc, ?_⟩, ?_⟩, rfl, ?_, ?_, ?_⟩
-  · intro b' hb'
-    rcases List.mem_or_eq_of_mem_set hb' with h | h
-    · exact hbw b' h
-    · rw [h]; exact ⟨hbwf.1, by simp⟩
-  · intro b' hb' it hit
-    rcases List.mem_or_eq_of_mem_set hb' with h | h
-    · exact hal b' h it hit
-    · rw [h] at hit; simp [live] at hit
-  · funext d
-    simp only [Spec.TdmaSched.execute, abs]
-    by_cases hd : d < 25
-    · by_cases hd0 : d = 0
-      · subst hd0
-        have : (s.cur + 0) % 25 = s.cur := by omega
-        simp only [this, (by decide : (0:Nat) < 25), if_true, List.getElem?_set_self (lt_of_get? _ _ _ hb)]
-        simp [absBucket, live]
-      · have : s.cur ≠ (s.cur + d) % 25 := by omega
-        simp only [hd, hd0, if_true, if_false, List.getElem?_set_ne this]
-    · have : d ≠ 0 := by omega
-      simp only [hd, this, if_false]
-  · simp only [Spec.TdmaSched.execute]
-    rw [h0, absBucket_length b hbwf]
-  · simp only [Spec.TdmaSched.execute, Spec.TdmaSched.ValidRun]
-    rw [h0]
-    refine ⟨hperm.map absItem, ?_⟩
-    rw [List.pairwise_map]
-    exact hpw
-
 /-! ### operations and histories -/
 
 /-- the operation as the property sees it -/
@@ -545,63 +480,5 @@ def OutsMatch : List Out → List (Spec.TdmaSched.Out Cb) → Prop
 
 theorem validRun_nil : Spec.TdmaSched.ValidRun ([] : List (AItem Cb)) [] :=
   ⟨List.Perm.nil, List.Pairwise.nil⟩
-
-theorem step_refines (env : Env) (s : Sched) (op : Op) (hinv : Inv env s) (hop : OpOk env op) :
-    ∃ s' out, step env s op = .ok (s', out) ∧ Inv env s' ∧
-      abs s' = (Spec.TdmaSched.step (abs s) (absOp op)).1 ∧
-      OutMatch out (Spec.TdmaSched.step (abs s) (absOp op)).2 := by
-  cases op with
-  | schedule off cb p1 p2 p3 prio =>
-    obtain ⟨ho, h1, h2, h3, hp1, hp2, hok⟩ := hop
-    obtain ⟨s', rc, he, hi, _, ha, _⟩ := schedule_spec env s off cb p1 p2 p3 prio hinv ho h1 h2 h3 ⟨hp1, hp2⟩ hok
-    refine ⟨s', ⟨rc, []⟩, ?_, hi, ?_, ?_, ?_⟩
-    · simp only [step, bind, Except.bind, he]; rfl
-    · simp only [absOp, Spec.TdmaSched.step, ← ha]
-    · simp only [absOp, Spec.TdmaSched.step, ← ha]
-    · exact validRun_nil
-  | scheduleSet off set p3 =>
-    obtain ⟨he, hm, h3, hok⟩ := hop
-    obtain ⟨s', rc, hee, hi, _, ha⟩ := scheduleSet_spec env s off set p3 hinv he hm h3 hok
-    refine ⟨s', ⟨rc, []⟩, ?_, hi, ?_, ?_, ?_⟩
-    · simp only [step, bind, Except.bind, hee]; rfl
-    · simp only [absOp, Spec.TdmaSched.step, ← ha]
-    · simp only [absOp, Spec.TdmaSched.step, ← ha]
-    · exact validRun_nil
-  | advance =>
-    obtain ⟨he, hi, ha⟩ := advance_spec env s hinv
-    refine ⟨_, ⟨0, []⟩, ?_, hi, ?_, ?_, ?_⟩
-    · simp only [step, bind, Except.bind, he]; rfl
-    · simp only [absOp, Spec.TdmaSched.step, ha]
-    · rfl
-    · exact validRun_nil
-  | execute =>
-    obtain ⟨s', rc, ran, he, hi, _, ha, hrc, hv⟩ := execute_abs env s hinv
-    refine ⟨s', ⟨rc, ran⟩, ?_, hi, ?_, ?_, ?_⟩
-    · simp only [step, bind, Except.bind, he]; rfl
-    · simp only [absOp, Spec.TdmaSched.step, ha]
-    · simp only [absOp, Spec.TdmaSched.step, hrc]
-    · exact hv
-  | reset =>
-    obtain ⟨s', he, hi, _, ha⟩ := reset_spec env s hinv
-    refine ⟨s', ⟨0, []⟩, ?_, hi, ?_, ?_, ?_⟩
-    · simp only [step, bind, Except.bind, he]; rfl
-    · simp only [absOp, Spec.TdmaSched.step, ha]
-    · rfl
-    · exact validRun_nil
-
-theorem run_refines (env : Env) : ∀ (ops : List Op) (s : Sched), Inv env s → (∀ op ∈ ops, OpOk env op) →
-    ∃ s' outs, run env s ops = .ok (s', outs) ∧ Inv env s' ∧
-      abs s' = (Spec.TdmaSched.run (abs s) (ops.map absOp)).1 ∧
-      OutsMatch outs (Spec.TdmaSched.run (abs s) (ops.map absOp)).2
-  | [], s, hinv, _ => ⟨s, [], rfl, hinv, rfl, trivial⟩
-  | op :: ops, s, hinv, hops => by
-    obtain ⟨s1, o, h1, hi1, ha1, hm1⟩ := step_refines env s op hinv (hops op (List.mem_cons_self ..))
-    obtain ⟨s', outs, h2, hi2, ha2, hm2⟩ := run_refines env ops s1 hi1
-      (fun x hx => hops x (List.mem_cons_of_mem _ hx))
-    refine ⟨s', o :: outs, ?_, hi2, ?_, ?_⟩
-    · simp only [run, bind, Except.bind, h1, h2]; rfl
-    · simp only [List.map_cons, Spec.TdmaSched.run, ← ha1, ha2]
-    · simp only [List.map_cons, Spec.TdmaSched.run, ← ha1]
-      exact ⟨hm1, hm2⟩
 
 end OsmoVerif.TdmaSched
